@@ -18,7 +18,7 @@ def handle (op : String) (args : List String) : String :=
     else if DrvHex.isDesc d then DrvHex.handle op args
     else if DrvBin.isDesc d then DrvBin.handle op args
     else if DrvInst.isDesc d then DrvInst.handle op args
-    else if d.startsWith "U(" || d.startsWith "pstr:" || d.startsWith "idref:" || d.startsWith "lref(" then DrvU.handle op args
+    else if d.startsWith "U(" || d.startsWith "pstr:" || d.startsWith "idref:" || d.startsWith "lref(" || d.startsWith "lrefr(" then DrvU.handle op args
     else handleBase op args
   | [] => handleBase op args
 
